@@ -147,7 +147,7 @@ def run_fragment(ctx, mode, n_exprs, max_depth):
                     except Q.Unsupported: tex = None; ctx.count('%s:decompiled-ast-outside-model' % mode)
                     except Exception: tex = None
                     if tex is not None and tex != e: ctx.count('%s:%s:decompiler-rewrote-expression' % (mode, form))
-                if real.get('error') in ('DecompileError', 'IndexError') and form != 'string':
+                if real.get('error') in ('DecompileError', 'IndexError', 'AssertionError') and form not in ('string', 'filter'):
                     ctx.count('%s:decompiler-refused' % mode)       # an error, not different rows
                 elif tex is not None and not Q.closed_compound(tex):
                     tr_reqs.append({'op': 'translate', 'dialect': 'sqlite', 'schema': sch, 'expr': Q.to_json(tex)}); tr_meta.append((s, form, real, mode))
@@ -331,7 +331,8 @@ def run_projections(ctx, n_exprs):
                 except Exception as ex:
                     q = None; real = {'error': Q.exc_class(ex)}
                     ctx.count('proj:%s:raises:%s' % (form, real['error']))
-                if real.get('error') in ('DecompileError', 'IndexError') and form == 'generator': continue
+                if real.get('error') in ('DecompileError', 'IndexError', 'AssertionError') and form == 'generator':
+                    ctx.count('proj:decompiler-refused'); continue
                 if tex is not None and not Q.closed_compound(tex):
                     tr_reqs.append({'op': 'translate', 'dialect': 'sqlite', 'schema': sch, 'expr': Q.to_json(tex)}); tr_meta.append((s, form, real))
                 if q is None: continue
